@@ -159,6 +159,19 @@ func (g *Gen) execCall(v ssa.Value, c *ssa.CallCommon, in ssa.Instruction, st St
 			return
 		}
 	}
+	// a closure under contract handed to a function without one (wait.ExponentialBackoff, ...):
+	// its preconditions must hold where it is handed over; that they still hold when it is
+	// invoked (possibly repeatedly) is the closure's own [requires-stable] postcondition plus the
+	// recorded assumption that the callee touches tracked state only through the closure
+	for _, a := range c.Args {
+		if mc := asClosure(a); mc != nil {
+			fake := &ssa.CallCommon{Value: mc}
+			if cct, ckey := g.contractOfCall(fake); cct != nil && len(cct.Requires) > 0 {
+				g.checkCallPre(cct, ckey, fake, in, st, reach)
+				g.assumed["closure handed to "+trimName(name)+" is invoked only synchronously, with no write to tracked state in between"] = true
+			}
+		}
+	}
 	// functions of the loaded program that only log (checked on their SSA body)
 	if f, ok := c.Value.(*ssa.Function); ok && f.Blocks != nil && f.Signature.Results().Len() == 0 && g.closureIsLoggingOnly(f, 0) {
 		g.assumed["logging-only function (body scanned: no stores, sends or non-logging calls), trusted not to panic: "+trimName(name)] = true
@@ -825,6 +838,9 @@ func (g *Gen) checkCallPre(ct *Contract, key string, c *ssa.CallCommon, in ssa.I
 	pre := st.clone()
 	g.bindLetsT(ct, vars, pre, pre, true)
 	for i, cl := range ct.Requires {
+		if !cl.active(g.prog.curProp) {
+			continue
+		}
 		env := g.envAt(pre, pre, cpkg, vars)
 		env.inGoal = true
 		t := env.compileBool(cl.Expr)
